@@ -213,33 +213,6 @@ func normalize(c *Case) {
 	}
 	neg := c.negIdle()
 	if c.Phase == "edge" {
-		c.TruncLen = 0
-	}
-	// Without keep-alives the connection goes quiet once the handshake and the preparations are over. Unless
-	// idleness is the cause under test, the cause must strike well before the natural idle deadline.
-	if !c.aliveGuaranteed() {
-		limit := c.RTTms + neg/2 - c.armMs() - 2
-		if limit < 0 {
-			c.C.KeepAlive = "short"
-		} else if c.AtMs > limit && !(c.Cause == "idle" && c.Variant%2 == 1) {
-			c.AtMs = limit
-		}
-	}
-	if c.aliveGuaranteed() && c.AtMs > 10*neg {
-		c.AtMs = 10 * neg // "never over 10 idle periods while keep-alives are answered"
-	}
-	if c.Cause == "idle" && c.Variant%2 == 1 {
-		// natural idle timeout: nothing is sent any more, no keep-alives
-		c.C.KeepAlive, c.S.KeepAlive = "off", "off"
-		c.AtMs = 0
-		if c.Phase == "transfer" {
-			c.Phase, c.XferDir = "armed", ""
-		}
-	}
-	if c.Phase == "transfer" && c.AtMs > 300 {
-		c.AtMs = 300 // a bulk transfer costs real time
-	}
-	if c.Phase == "edge" {
 		c.AtMs, c.TruncLen = 0, 0
 		for _, s := range []*Side{&c.C, &c.S} {
 			var keep []string
@@ -250,6 +223,36 @@ func normalize(c *Case) {
 			}
 			s.Blocked = keep
 		}
+	}
+	quietLimit := func() int { return c.RTTms + neg/2 - c.armMs() - 2 }
+	if c.Cause == "idle" && c.Variant%2 == 1 {
+		// natural idle timeout: nothing is sent any more, no keep-alives
+		c.C.KeepAlive, c.S.KeepAlive = "off", "off"
+		c.AtMs = 0
+		if c.Phase == "transfer" {
+			c.Phase, c.XferDir = "armed", ""
+		}
+		if quietLimit() < 0 {
+			c.TruncLen = 0
+		}
+		if quietLimit() < 0 {
+			c.Variant-- // the calls cannot be armed before the natural deadline: black the network out instead
+		}
+	}
+	// Without (effective) keep-alives the connection goes quiet once the handshake and the preparations are over.
+	// Unless idleness is the cause under test, the cause must strike well before the natural idle deadline.
+	if !c.aliveGuaranteed() {
+		if limit := quietLimit(); limit < 0 {
+			c.C.KeepAlive, c.S.KeepAlive = "short", "short"
+		} else if c.AtMs > limit {
+			c.AtMs = limit
+		}
+	}
+	if c.aliveGuaranteed() && c.AtMs > 10*neg {
+		c.AtMs = 10 * neg // "never over 10 idle periods while keep-alives are answered"
+	}
+	if c.Phase == "transfer" && c.AtMs > 300 {
+		c.AtMs = 300 // a bulk transfer costs real time
 	}
 }
 
